@@ -409,6 +409,15 @@ def closed_ticks_arrays():
             back = m.midi_ticks_to_seconds(sc, mpq=mpq, ppq=ppq)
             if abs(Fraction(back) - Fraction(float(s))) > Fraction(mpq, 2 * 10**6 * ppq) + Fraction(1, 10**9):
                 return False, n, {"input": [float(s), ppq, mpq], "what": "ticks -> seconds off by more than half a tick"}
+        # ticks that are not whole numbers (rescaled from another resolution), as an array and one by one
+        frac = np.array([0.5, 239.5, 1e-3, 959.999, -0.25, -3.5, 1234.5678])
+        fa = m.midi_ticks_to_seconds(frac, mpq=mpq, ppq=ppq)
+        for tk, sec in zip(frac, np.asarray(fa).ravel()):
+            n += 1
+            one = m.midi_ticks_to_seconds(float(tk), mpq=mpq, ppq=ppq)
+            exact = Fraction(float(tk)) * mpq / (10**6 * ppq)
+            if abs(Fraction(float(sec)) - exact) > Fraction(1, 10**9) or abs(Fraction(float(one)) - exact) > Fraction(1, 10**9):
+                return False, n, {"input": [float(tk), ppq, mpq], "what": "ticks -> seconds: array gives %r, scalar %r, the formula %s" % (float(sec), float(one), float(exact))}
         if not np.issubdtype(np.asarray(arr).dtype, np.integer):
             return False, n, {"input": {"kind": "ndarray"}, "what": "array result is not integer typed"}
         back = m.midi_ticks_to_seconds(np.asarray(arr), mpq=mpq, ppq=ppq)
